@@ -370,6 +370,7 @@ impl Engine for Lifetime {
         let mut next_edge = 100;
         let initial = gen::gen_initial(rng, &mut m, &mut next_edge, if small { 4 } else { 10 });
         let cfg = GenCfg {
+            hub: None,
             provs: vec![Prov::Own, Prov::Clone, Prov::EdgeSrc, Prov::EdgeDst],
             w: [40, 15, 25, 8, 0, 0, 0],
         };
